@@ -50,6 +50,13 @@ DecodeStep(c, p, d) ==
                err |-> d.err, cc |-> d.cc, has |-> FALSE, resp |-> << >>, arg |-> 0]
 Decode(c, p) == DecodeStep(c, p, Dec(p, O))
 
+(* the length probe: no effect on the context; its answer is a function of the first three bytes (C17) *)
+GetLength(c, p) ==
+    /\ UNCHANGED << ctx, hist >>
+    /\ out' = [NoOut EXCEPT !.op = "get_length", !.c = c, !.p = p,
+                            !.kind = IF Len(p) >= 3 THEN GetLengthOf(p).kind ELSE "err",
+                            !.hi = IF Len(p) >= 3 THEN GetLengthOf(p).len ELSE 0]
+
 SetEidReq(c, e) == /\ ctx' = [ctx EXCEPT ![c].eidReq = e] /\ hist' = [hist EXCEPT ![c].req = e]
                    /\ out' = [NoOut EXCEPT !.op = "set_eid_req", !.c = c, !.arg = e]
 SetEidResp(c, e) == /\ ctx' = [ctx EXCEPT ![c].eidResp = e] /\ hist' = [hist EXCEPT ![c].resp = e]
@@ -58,7 +65,7 @@ SetUuid(c, u) == /\ ctx' = [ctx EXCEPT ![c].uuid = u] /\ hist' = [hist EXCEPT ![
                  /\ out' = [NoOut EXCEPT !.op = "set_uuid", !.c = c, !.arg = u]
 
 Next == \E c \in CtxIds :
-          \/ \E p \in Packets : Process(c, p) \/ Decode(c, p)
+          \/ \E p \in Packets : Process(c, p) \/ Decode(c, p) \/ GetLength(c, p)
           \/ \E e \in EidVals : SetEidReq(c, e) \/ SetEidResp(c, e)
           \/ \E u \in UuidVals : SetUuid(c, u)
 
@@ -148,6 +155,11 @@ InvC15 ==
       /\ Cmd(out.p) = 5 => SubSeq(R, 13, Len(R) - 1) = << Len(Cfg[out.c].mts) >> \o Cfg[out.c].mts
 UuidOnlyBySetUuid == [][ (\E c \in CtxIds : ctx'[c].uuid # ctx[c].uuid) => out'.op = "set_uuid" ]_vars
 ConfigImmutable == \A c \in CtxIds : ctx[c].addr = Cfg[c].addr /\ ctx[c].mts = Cfg[c].mts /\ ctx[c].vids = Cfg[c].vids
+
+(* C17: the probe answers byte[2] + 4 exactly when byte[1] is the MCTP command code, whatever else is in the input *)
+InvC17 == out.op = "get_length" =>
+            IF Len(out.p) >= 3 /\ out.p[2] = 15 THEN out.kind = "ok" /\ out.hi = out.p[3] + 4
+                                                 ELSE out.kind = "err"
 
 (* C09: the decoder's verdict does not depend on the context *)
 InvC09 == out.op = "decode" => DecodeAllowed(out.p, [kind |-> out.kind, type |-> out.type, lo |-> out.lo,
